@@ -171,10 +171,13 @@ def apply_png_predictor(
         raise PDFValueError(msg)
 
     nbytes = (colors * columns * bitspercomponent + 7) // 8
+    if nbytes < 0:
+        raise PDFValueError(f"Unsupported geometry: {colors} x {columns}")
     # number of bytes per complete pixel, rounding up to one
     bpp = max(1, colors * bitspercomponent // 8)
     buf = []
-    line_above = [0] * nbytes
+    # no row is longer than the data: a huge /Columns must not cost memory
+    line_above = [0] * min(nbytes, len(data))
     for scanline_i in range(0, len(data), nbytes + 1):
         filter_type = data[scanline_i]
         line_encoded = data[scanline_i + 1 : scanline_i + 1 + nbytes]
